@@ -12,42 +12,108 @@ NOTE_COMMON = ("Trusted: Lean 4.33 kernel (axioms propext, Classical.choice, Quo
 
 CLAIMS = {
     "C01": dict(
-        text="PARTIAL: soundness proved, completeness not. Machine-checked (Lean 4), for EVERY grammar over the combinator set (no "
-             "well-formedness hypothesis; direct/indirect/hidden left recursion, cyclic and nullable rules, ambiguity), every input, "
-             "left-recursion context, fuel and reachable cache state: every tree the parser core returns is a derivation of the "
-             "parser at the call position in the declarative semantics Spec/Derives (c01_sound, c01_cache_sound: the result cache "
-             "only ever holds derivations, so cache hits are sound), starts at the call position, has nested contiguous children, "
-             "lies within the file and its leaves spell exactly the consumed input (c01_spans); errors lie between the call position "
-             "and end of file (c01_error_positions). NOT proved: completeness (every derivation's end position / tree is returned) - "
-             "its statement is kept in Props/C01.lean; it is decided on every run by an independent least-fixpoint derivation table "
-             "computed in Go over (sub-term, start, end) and compared with the implementation's results, plus the model/implementation "
-             "differential on ordered result lists, curtailing sets and call counts - bounded exploration, not proof.",
+        text="Machine-checked proof (Lean 4). SOUNDNESS for EVERY grammar over the whole combinator set (no well-formedness hypothesis; "
+             "direct/indirect/hidden left recursion, cyclic and nullable rules, ambiguity), every input, context, fuel and reachable "
+             "cache: every returned tree is a derivation in the declarative semantics Spec/Derives (c01_sound; c01_cache_sound: the "
+             "cache only ever holds derivations), starts at the call position, has nested contiguous children within the file, and "
+             "its leaves spell exactly the consumed input (c01_spans). COMPLETENESS for the monotone fragment {terminals, Empty, "
+             "nonterminal references, Memoize, Any, SeqOf, Optional} - the Frost-Hafiz-Callaghan setting: every end position the "
+             "grammar derives is returned, and every tree when no derivation nests the same (rule, start, end) twice, as iffs "
+             "(c01_complete_ends, c01_complete_trees, c01_ends_exact, c01_trees_exact), proved in two halves: cache reuse with pruned "
+             "stored contexts and curtailing sets never loses a curtailed derivation (c01_reuse_complete: for EVERY context that "
+             "dominates the stored one on the curtailing set), and curtailed derivations from the empty context cover all end "
+             "positions by a cut argument on minimal derivations (c01_curtailed_covers). PARTIAL: for the non-monotone operators "
+             "(Choice, Many, SepBy, SeqTry, SeqFirstOrAll) and Name/Single over Optional (known finding D9) completeness is decided "
+             "per case by the harness's independent least-fixpoint derivation table and the model/implementation differential - "
+             "bounded exploration.",
         note="Derives is the monotone reading (Choice as Any, repetitions may stop wherever lenCheck allows): soundness is claimed against "
-             "it. TermGood (terminals return well-positioned leaves) is a hypothesis of c01_spans, proved of the built-in terminals by C08.",
-        technique="Lean 4 invariant proofs by induction on fuel over the executable parser model (cache invariant, loop principles for Any/Choice/Sequence) + derivation oracle + differential correspondence + regenerated facts"),
+             "it. TermGood (terminals return well-positioned leaves) is proved of the built-in terminals by C08 (c08_termGood). A "
+             "sequence stops enumerating after an alternative whose last node has token EOF: completeness is stated below the Sentence wrapper.",
+        technique="Lean 4 invariant proofs by induction on fuel over the executable parser model (soundness, reuse-completeness with a cache invariant) + cut argument on sized derivations + derivation oracle + differential correspondence + regenerated facts"),
     "C02": dict(
-        text="PARTIAL: the re-entry bound is proved, termination itself is not. Machine-checked (Lean 4), for every grammar over the "
-             "combinator set and every input: whenever the parser core answers, no memoized parser was ever active more than "
-             "(remaining input + 2) times at one position (c02_reentry; ghost activation stack maintained by the model's Memoize, "
-             "the bound is attained on P -> P b | a), every call restores the activation stack (c02_balanced), and fuel bounds "
-             "recursion depth only - a larger fuel never changes an answer (c02_fuel_mono). The slack constant and the reset condition "
-             "are regenerated from the source (c02_slack: curtailSlack <= 1 by decide; c02_facts). NOT proved: that some fuel always "
-             "suffices for certified grammars (statement kept in Props/C02.lean). Every generated certified grammar is executed on the "
-             "real library under a stack limit, timeout and an activation probe inside every Memoize whose maxima are compared with "
-             "the model's ghost counters - bounded exploration for the termination half.",
-        note="What stack depth is fatal is runtime; the theorem bounds activations, the harness observes the process.",
-        technique="Lean 4 invariant proof (activation stack vs left-recursion context) by induction on fuel + activation probes in the differential run + regenerated facts"),
+        text="Machine-checked proof (Lean 4) of BOTH halves. TERMINATION: for every grammar accepted by the decidable certificate wf "
+             "(nullable table closed under the syntactic may-be-empty analysis; every left reference that does not pass under a "
+             "Memoize goes to a rule of strictly smaller rank - i.e. every cycle of the left-call graph passes a Memoize; operands of "
+             "Many do not match empty, value and separator of SepBy not both) and every input, position, left-recursion context and "
+             "reachable state there is a fuel beyond which the parser core always answers (c02_terminates, c02_terminates_parse, "
+             "c02_terminates_auto for the certificate the driver computes): four nested well-founded inductions on remaining input, "
+             "curtailment budget, rank and term size, with total loop principles for Any / Choice / the Sequence family and the "
+             "semantic soundness of may-be-empty (c02_mayBeEmpty_sound). Direct, indirect and hidden left recursion included; the "
+             "un-memoized left-recursive grammar and Many(Optional a) have NO certificate (wf_bad_fails, wf_manyOpt_fails) and the "
+             "model returns no answer on them for the fuels tried. RE-ENTRY: whenever the core answers, no memoized parser was active "
+             "more than (remaining input + 2) times at one position - attained on P -> P b | a - and every call restores the "
+             "activation stack (c02_reentry, c02_balanced); fuel bounds recursion depth only (c02_fuel_mono). The certificate the "
+             "theorem speaks about is tied to the generator's: a second stream compares Go's wellFormed verdict and nullable rules "
+             "with Lean's wf on certified, stripped and uncertified grammars. Every generated certified grammar is also executed on "
+             "the real library under a stack limit, a timeout and activation probes inside every Memoize whose maxima are compared "
+             "with the model's ghost counters.",
+        note="Scope: no trims; terminals must consume (TermCons: proved for Rune and non-empty Op; false for a Regexp matching the empty "
+             "string, which Go's certificate would accept - the generator emits rune terminals only). The fuel bound is per call, not a "
+             "uniform explicit polynomial. What stack depth is fatal is runtime.",
+        technique="Lean 4 well-founded termination proof (lexicographic measure, total loop principles) + invariant proof of the activation bound + certificate-agreement stream + activation probes in the differential run"),
+    "C03": dict(
+        text="Machine-checked proof (Lean 4) over the parser-core model, whole combinator set (trims included): memoization is "
+             "transparent whenever nothing was curtailed - for any grammar in which each Memoize index wraps one parser, the memoized "
+             "run and the run of the fully un-memoized grammar return the same ordered results, the same error, no curtailing set, "
+             "the same POSITION of the furthest recorded error, and the memoized run makes no more calls (c03_transparent, "
+             "c03_transparent_parse, c03_memo_placement_irrelevant: any two placements of Memoize agree; proved by a two-run "
+             "simulation with the cache invariant 'every entry is the reference answer and the context error is already at least as "
+             "far'); an un-memoized grammar's answer does not depend on context or state (c03_state_independent); a cache hit "
+             "returns the stored answer verbatim and registers no call (c03_hit_is_free); with no curtailment and no re-entry the "
+             "wrapped parser's body runs at most once per position and every completed run is answered from the cache afterwards "
+             "(c03_once, c03_completed_is_cached, c03_no_curtail); repeating a parse reproduces results, errors, call count and log "
+             "for any fuel (c03_deterministic) and under any order-preserving renumbering of parser indexes (c03_index_renaming: a "
+             "re-built grammar). PARTIAL on one link: that a left-recursion-free grammar never curtails or re-enters (NoCurtail / "
+             "NoReentry, decidable on the ghost log) is not proved syntactically; the correspondence run checks it on every generated "
+             "LRF grammar. c03_parse_message_not_transparent documents that the TEXT of Parse's message may differ (same position), "
+             "which the property does not claim.",
+        note="rtrim over a memoized parser is outside the harness's C03 domain (known finding D5: in-place mutation, invisible in the value-level model).",
+        technique="Lean 4 two-run simulation proof (induction on fuel with a cache invariant) + unary invariants on the ghost log + differential correspondence (memoized vs stripped vs model, probe counters under each Memoize)"),
     "C04": dict(
         text="Machine-checked (Lean 4): parsley.Parse returns exactly one of node / error for EVERY grammar, input, fuel and initial "
              "state (c04_xor); a Sentence-rooted success starts at the first byte, ends at end of input and wraps a derivation of the "
              "wrapped parser that consumes the whole input (c04_sentence_sound, c04_sentence_only_if: Sentence succeeds ONLY IF such a "
              "derivation exists); Evaluate never panics on a tree whose non-terminals carry applicable interpreters - Select in range, "
              "Object over key/value nodes with string keys, Array, Nil, any custom interpreter that does not panic itself (c04_eval, "
-             "c04_eval_root), and does panic without an interpreter (c04_eval_needs_interpreter). PARTIAL on one point: the IF "
-             "direction of the Sentence iff is C01's completeness and is not proved (statement kept); the harness's derivation oracle "
-             "decides it per case (known finding D9: Name/Single over Optional).",
+             "c04_eval_root), and does panic without an interpreter (c04_eval_needs_interpreter). The IF direction of the Sentence iff "
+             "is proved for the monotone fragment (c01_sentence_complete_parse in Props/C01C.lean); outside it the harness's "
+             "derivation oracle decides it per case (known finding D9: Name/Single over Optional).",
         note="c04_sentence_sound needs Scope (no trims, TermGood terminals); c04_xor needs nothing.",
         technique="Lean 4 theorems over the parse/evaluate model (case analysis of Parse, derivation inversion for Sentence, induction for the evaluator) + oracle on the real Parse/Evaluate under recover + differential correspondence"),
+    "C05": dict(
+        text="PARTIAL (value theorem modulo completeness). Machine-checked (Lean 4) for the closed term Garith - the arithmetic "
+             "grammar exactly as the harness builds it from library combinators (Memoize, Any, SeqOf, Trim, Integer, Rune, Sentence); "
+             "a driver command compares the harness's grammar with Garith on every run and the custom interpreter the driver binds "
+             "is proved equal to the one in the theorems: every derivation of the grammar is sentence[expression tree, EOF] with "
+             "the three-level expr/term/factor shape and operator leaves sitting on the corresponding input bytes (c05_tree_shape, "
+             "c05_*_tree_iff; through c01_sound every tree Parse returns has that shape); evaluation of an expression tree is "
+             "EXACTLY the reference evaluator on the expression the tree denotes - left-associative by construction, int64 "
+             "wrap-around, truncated division, division by zero reported at the position of the offending '/' leaf (c05_value, "
+             "c05_eval_total, c05_ref_error_at, c05_error_position/text), never a panic (c05_no_panic); so whenever Evaluate answers a "
+             "value it is the reference value of the parsed tree, which spans the whole input (c05_value_partial, c05_evaluate). "
+             "NOT proved: that the tree found is the tree of the rendered expression (completeness + unambiguity: "
+             "c05_value_STATEMENT) and that every accepted input is a rendering (c05_reject_STATEMENT); both are decided per case "
+             "by the differential run against an independent reference evaluator on generated expressions and their ill-formed mutations.",
+        note="The model's evaluate on this grammar is not kernel-reducible (well-founded cpUnion); the concrete end-to-end examples in Props/C05.lean are #guard tests, labelled as tests.",
+        technique="Lean 4 theorems on a closed grammar term (derivation inversion through an abstract-reference relation, evaluation homomorphism) + grammar-identity stream + differential run against a reference evaluator"),
+    "C06": dict(
+        text="Machine-checked proof (Lean 4) over the parser-core model with its ghost log of failed terminals: PROVENANCE - every "
+             "error value that lives anywhere (returned, sequence / alternative accumulators, context error, cached) is a logged "
+             "terminal or end-of-input failure at exactly that position with exactly that expectation, or a Name's not-found at a "
+             "position where a terminal failed or where the named parser failed without producing any error of its own (c06_provenance, "
+             "c06_upper_named); hence for grammars without Names the error Parse reports is never beyond the furthest failing "
+             "terminal and its expectation really failed there (c06_upper_unnamed_sentence); Parse reports the further of returned "
+             "and context error, ties to the returned one (c06_parse_prefers_further); the text is exactly 'failed to parse the "
+             "input: <expectation> at <file>:<line>:<column>' with line/column of that position by C11 (c06_text); EXACTNESS - every "
+             "logged terminal failure is at or before the reported position unless a curtailment lies beyond it, so without "
+             "curtailment beyond the furthest failure the reported position EQUALS it (run_low, c06_exact_partial). PARTIAL: the "
+             "upper bound for named grammars needs Productive (c06_upper_needs_productive proves the D8 witness inside the model; "
+             "the general statement under Productive is open), exactness without the curtailment side condition is open; both "
+             "statements are kept in Props/C06.lean and are decided per case by the probe-based oracle (furthest failing terminal "
+             "from wrappers around every terminal of the real grammar).",
+        note="Known finding D8 (an unproductive named nonterminal reports its own start). SuppressError breaks exactness by design "
+             "(c06_exact_needs_no_suppress). A Sequence whose last node has token \"EOF\" (e.g. Word(\"eof\")) stops enumerating: excluded (LocLow).",
+        technique="Lean 4 invariant proofs over the parser model with a ghost failure log (provenance and lower-bound inductions on fuel) + probe-based oracle on the real code + differential correspondence"),
     "C07": dict(
         text="Machine-checked proof (Lean 4) on a slice-level state machine (heap of node objects and arrays, slice headers with len/cap, "
              "append that writes in place when len < cap and reallocates otherwise under ANY growth policy) onto which AppendNode, "
@@ -160,6 +226,21 @@ CLAIMS = {
         note="The race detector and the scheduler are runtime; the fact extractor (go/types, call graph over-approximation, no alias "
              "analysis, blind to the standard library) is trusted.",
         technique="Lean 4 non-interference theorems over an interleaving model + decide on regenerated write/capture facts + race-detector workload"),
+    "C16": dict(
+        text="PARTIAL (value theorem modulo completeness; encoding/json is an external oracle). Machine-checked (Lean 4) for the closed "
+             "term Gjson - the transcription of examples/json/json/parser.go (the REAL json.NewParser() runs on the Go side; a driver "
+             "command compares the harness's transcription with Gjson on every run): every derivation is sentence[JSON tree, EOF], "
+             "arrays/objects being Select(1) over a SEP_BY node whose even children are values / key-value nodes with string-literal "
+             "keys and whose odd children are commas, never a trailing comma (c16_tree_shape); evaluation of a JSON tree never errors "
+             "and never panics - Object's type assertions always hold - and yields denote(jvalOf tree): arrays in order, objects as "
+             "maps where the LAST duplicate key wins, numbers as their lexemes, strings as decoded bytes (c16_eval_total, c16_value, "
+             "c16_denote_obj, c16_no_panic); whenever Evaluate answers a value it is the denotation of the parsed tree, which spans "
+             "the whole input; otherwise an error (c16_value_partial, c16_reject_partial, c16_evaluate). NOT proved: that denote "
+             "agrees with encoding/json (external library: checked on every generated document by the differential run with "
+             "UseNumber), that the tree found is the one of the rendered document, and the byte-level description of the rejected "
+             "corruptions (statements kept).",
+        note="c16_json_tree_not_evalSafe: key/value nodes carry no interpreter (Object reads their children directly), so no-panic is proved directly, not via C04's EvalSafe.",
+        technique="Lean 4 theorems on a closed grammar term (derivation inversion, evaluation = denotation) + grammar-identity stream + differential run against encoding/json"),
     "C15": dict(
         text="Machine-checked proof (Lean 4) that the slice-heap/map-heap model of IntSet/IntMap refines the plain set/map "
              "specification for every history and every append growth policy (c15_refine, c15_sorted, c15_grow_irrelevant), tied to "
@@ -167,6 +248,22 @@ CLAIMS = {
              "re-read after every operation, and by regenerated source text facts.",
         note="sort.SearchInts, append/copy/make and Go maps are re-implemented from their documentation.",
         technique="Lean 4 refinement proof (invariant over operation histories on a slice heap) + differential correspondence + regenerated facts"),
+    "C17": dict(
+        text="PARTIAL by nature (growth for ALL unambiguous grammars needs lower bounds nobody has). Machine-checked (Lean 4): the call "
+             "count is a function of grammar, environment and input - identical for any two fuels that answer, independent of the "
+             "ghost flag and of the file's base offset (c17_det, c17_det_run, c17_det_ghost, c17_det_offset); an exact ACCOUNTING of "
+             "calls for every grammar: a cache hit, a curtailment, a terminal cost 0, Any/Choice cost one per alternative tried plus "
+             "the alternatives, the Sequence family one per element invocation, a Memoize miss exactly its body (c17_accounting, "
+             "c17_any, c17_choice, c17_seqfam); EXACT CLOSED FORMS proved for every input length: P -> P b | a makes (n^2+9n+16)/2 "
+             "calls on a b^(n-1) (c17_closed_PbA / c17_closed_PbA_all - 298 at n = 20, the suite's pinned value - by induction over "
+             "the left spine with an explicit description of the cache after each level), nested brackets 5k+5, separated lists 2k+4 "
+             "(c17_closed_brackets, c17_closed_seplist), hence doubling the input multiplies the count by at most 4 resp. 2 "
+             "(c17_double_*). Bounded checks only (decide +kernel, labelled): hidden and mutual left recursion on their measured "
+             "curves for small n; no closed form for the arithmetic family. For all six families the compiled model and the real "
+             "library are run at doubling lengths up to 128/256 bytes, counts must agree exactly, be equal on a re-built grammar and "
+             "satisfy calls(2n) <= 16 calls(n) - bounded exploration.",
+        note="Wall-clock time and allocations are outside the model; the property speaks of call counts only.",
+        technique="Lean 4 theorems (determinism, call accounting, closed forms by induction on the input length) + exact call-count agreement in the differential run at doubling lengths"),
 }
 
 REASON_PENDING = ("theorems for this property are still being written in this build phase (its correspondence stream and oracle exist in "
